@@ -144,7 +144,7 @@ def make(MAX, epnum=4):
         c.cover("zlp_empty_frame", z3.And(zlp, req == 0, framed == 1))
         c.cover("zero_fill", z3.And(xfer, I["i_s_valid"] == 0))
         c.cover("stream_byte", z3.And(xfer, I["i_s_valid"] == 1, I["i_s_payload"] == 0x5A))
-        c.cover("stall", z3.And(send, z3.Not(tx_ready), psent == 1))
+        c.cover("stall", z3.And(send, z3.Not(tx_ready), psent == min(1, MAX - 1)))
         if MAX > 3:
             c.cover("short_single_packet", z3.And(done, req == 3, psent == 2))
         c.cover_depth = 3 * MAX + 16 if small else 14
